@@ -166,21 +166,25 @@ def view (s : Sig) (d : Dict) : List (Name × Option ArgRef) :=
 /-- names a keyword argument can bind: `co_varnames[posonlyargcount : argcount + kwonlyargcount]` -/
 def Sig.kwBindable (s : Sig) : List Name := s.poskw ++ s.kwonly
 
-/-- one iteration of the keyword loop: state = (bound parameters, contents of the ** dict) -/
-def cpyKw (s : Sig) (st : Dict × List Name) (k : Name) : Except CpyErr (Dict × List Name) :=
+/-- one iteration of the keyword loop: state = (bound parameters, contents of the ** dict).
+`allKws` = all keyword names of the call: when a keyword matches no parameter and there is no
+`**kwargs`, CPython first asks `positional_only_passed_as_keyword`, which scans *all* keywords. -/
+def cpyKw (s : Sig) (allKws : List Name) (st : Dict × List Name) (k : Name) :
+    Except CpyErr (Dict × List Name) :=
   if s.kwBindable.contains k then
     if (st.1.lookup k).isSome then .error .multipleValues
     else .ok ((k, .kw k) :: st.1, st.2)
   else if s.kwargs.isSome then .ok (st.1, st.2 ++ [k])
-  else if s.posonly.contains k then .error .posonlyAsKeyword
+  else if allKws.any (fun k' => s.posonly.contains k') then .error .posonlyAsKeyword
   else .error .unexpectedKeyword
 
-def cpyKws (s : Sig) : List Name → Dict × List Name → Except CpyErr (Dict × List Name)
+def cpyKws (s : Sig) (allKws : List Name) :
+    List Name → Dict × List Name → Except CpyErr (Dict × List Name)
   | [], st => .ok st
   | k :: ks, st =>
-    match cpyKw s st k with
+    match cpyKw s allKws st k with
     | .error e => .error e
-    | .ok st' => cpyKws s ks st'
+    | .ok st' => cpyKws s allKws ks st'
 
 /-- a parameter that was not given takes its default -/
 def cpyVal (b : Dict) (p : Name) : ArgRef := (b.lookup p).getD .default
@@ -193,7 +197,7 @@ def cpyBind (s : Sig) (c : Call) : Except CpyErr Dict :=
   -- 1. copy positional arguments; 2. pack the rest into *args
   let b0 := zipPos s.params 0 c.npos
   -- 3. keyword arguments, in call order
-  match cpyKws s c.kws (b0, []) with
+  match cpyKws s c.kws c.kws (b0, []) with
   | .error e => .error e
   | .ok (b, extra) =>
     -- 4. too many positional arguments
@@ -238,18 +242,36 @@ def outcomeC : Except CpyErr Dict → Outcome
   | .error e => e.cls
 
 /-! ## receivers: bound methods, classmethods and constructors prepend the receiver to the
-positional arguments (`BoundFunction.call`: `args.replace(posargs=(self._callself,) + args.posargs)`);
-staticmethods and plain functions do not. -/
+positional arguments; staticmethods and plain functions do not.  CPython always prepends it
+(`method_vectorcall`).  pytype (`BoundFunction.call`):
+
+    # The "self" parameter is automatically added to the list of arguments, but
+    # only if the function actually takes any arguments.
+    if self.argcount(node) >= 0:            # BoundFunction.argcount = underlying.argcount - 1
+      args = args.replace(posargs=(self._callself,) + args.posargs)
+
+so a method *without any positional parameter* (`def z():`, `def n(*va):`) is called without its
+receiver — `boundCall`. -/
 
 def Call.withReceiver (c : Call) : Call := { c with npos := c.npos + 1 }
 
+/-- the argument record `BoundFunction.call` passes on to the underlying function -/
+def boundCall (s : Sig) (c : Call) : Call :=
+  if s.params.length ≥ 1 then c.withReceiver else c
+
+/-- pytype binding `receiver.m(args)` -/
+def mapArgsBound (s : Sig) (c : Call) : Except BindErr Dict := mapArgs s (boundCall s c)
+
+/-- CPython binding `receiver.m(args)` -/
+def cpyBindBound (s : Sig) (c : Call) : Except CpyErr Dict := cpyBind s c.withReceiver
+
 /-- the signature `def m(self, <s>)` when `s` has no positional-only parameter:
 `self` is positional-or-keyword. -/
-def Sig.selfPoskw (self : Name) (s : Sig) : Sig := { s with poskw := self :: s.poskw }
+def Sig.selfPoskw (me : Name) (s : Sig) : Sig := { s with poskw := me :: s.poskw }
 
 /-- the signature `def m(self, <s>)` with `self` positional-only (`def m(self, x, /, y)` or
 `def m(self, /, y)`). -/
-def Sig.selfPosonly (self : Name) (s : Sig) : Sig := { s with posonly := self :: s.posonly }
+def Sig.selfPosonly (me : Name) (s : Sig) : Sig := { s with posonly := me :: s.posonly }
 
 /-- the same argument seen from the unbound call: positional indices shift by one -/
 def ArgRef.shift : ArgRef → ArgRef
